@@ -15,6 +15,9 @@
      TLC evaluates: stored = Normalize(input) and Represents; twins stored identically; predicates = the spec's
      predicates on the tensor; ONE order (the one of `names`) lays out every list.
 
+   kind = "form": an input written in a form the code does not accept today (a 3-tuple of ints / float32 / mixed
+     entries, a list, a numpy array): raising is fine; a numeric 9-tuple, if stored, must be the tensor entered.
+
    kind = "complex" (trace-monitor clause): Material.from_complex_permittivity at a reference frequency; the
      harness reconstructs eps' + i sigma/(omega eps0) per component and logs the relative deviation from the
      complex permittivity that went in, in units of 1e-12 (dev), next to scaled values; the spec owns the bound. *)
@@ -92,7 +95,19 @@ ComplexVerdict(c) ==
          THEN "round trip: loss sign (positive imaginary part must give positive conductivity)"
     ELSE "ok"
 
-Verdict(c) == IF c.kind = "dict" THEN DictVerdict(c) ELSE IF c.kind = "complex" THEN ComplexVerdict(c) ELSE "malformed: kind"
+\* ---------- input forms outside the four formats / representations the code accepts ----------
+\* The only thing claimed: IF such an input is accepted and a numeric 9-tuple is stored, it is the tensor entered.
+\* Raising is fine.  Storing something that is not a 9-tuple of numbers (a list or array broadcast as if it were a scalar)
+\* is outside the statement; it is reported (drift) because it is neither a loud rejection nor a normal form.
+FormVerdict(c) ==
+    IF ~(c.inp.fmt \in Fmts /\ M!FormatOK(c.inp) /\ Len(c.t) = 9) THEN "malformed: form record"
+    ELSE IF c.raised THEN "ok"
+    ELSE IF ~c.numeric THEN "forms: a container that is none of the four formats was accepted and broadcast like a scalar"
+    ELSE IF c.t # M!Normalize(c.inp, "rowmajor") \/ ~M!Represents(c.t, c.inp) THEN "normal form: stored tuple is not the tensor that was entered"
+    ELSE "ok"
+
+Verdict(c) == IF c.kind = "dict" THEN DictVerdict(c) ELSE IF c.kind = "complex" THEN ComplexVerdict(c)
+              ELSE IF c.kind = "form" THEN FormVerdict(c) ELSE "malformed: kind"
 
 TInit == ci = 1 /\ TLCSet(1, << >>)
 TNext == /\ ci <= Len(Cases)
